@@ -135,8 +135,9 @@ pub struct Profile {
 
 pub const PLAIN: Profile = Profile { name: "plain", allow_empty: true, allow_key_update: false, allow_long: false, codepages: true, non_ascii: true, try_invalid: false };
 
-pub const TABLE_NAMES: [&str; 8] = ["A", "B", "T1", "Tbl.x", "_u", "Feature", "Long_Table.Name_0123456789", "z9"];
-pub const COLUMN_NAMES: [&str; 8] = ["k", "a", "b", "Name", "Value_1", "c.d", "_e", "Zed"];
+pub const TABLE_NAMES: [&str; 8] = ["A", "Tbl", "T1", "Tbl.x", "_u", "Feature", "Long_Table.Name_0123456789", "z9"];
+/// (`Tbl` + `x.k` and `Tbl.x` + `k` spell the same dotted path.)
+pub const COLUMN_NAMES: [&str; 8] = ["k", "a", "x.k", "Name", "Value_1", "c.d", "_e", "Zed"];
 pub const STREAM_NAMES: [&str; 8] = ["Binary.a", "Icon.App.ico", "s1", "data_2", "Z", "Cab.1", "A", "T1"];
 pub const ASCII_STRINGS: [&str; 14] = ["", "a", "b", "ab", "A", "Name", "x y", "Value_1", "A", "0", "-1", "The quick brown fox", "k", "T1"];
 pub const INT_BOUNDS: [i32; 19] = [0, 1, -1, 2, 31, 32, 127, 128, 255, 256, 32766, 32767, -32767, -32768, 32768, 65535, 65536, i32::MAX, -i32::MAX];
@@ -366,7 +367,19 @@ impl Run {
                     }
                     return V::Str(s);
                 }
-                let s = self.plain_string(seed.str_sel, self.db_page());
+                let mut s = self.plain_string(seed.str_sel, self.db_page());
+                if w == 0 && seed.class % 32 == 9 && !s.is_empty() {
+                    // a medium-long cell (1025..4024 characters): its encoded
+                    // form crosses the block sizes readers and writers use
+                    let target = 1025 + seed.int_sel.unsigned_abs() as usize % 3000;
+                    let pattern = s.clone();
+                    let per = pattern.chars().count();
+                    let mut n = per;
+                    while n < target {
+                        s.push_str(&pattern);
+                        n += per;
+                    }
+                }
                 let s: String = if w > 0 { s.chars().take(w).collect() } else { s };
                 if s.is_empty() && !self.prof.allow_empty {
                     V::Str("e".to_string())
@@ -597,7 +610,15 @@ impl Run {
                     let seed = &rows[0][0];
                     let ci = (seed.str_sel as usize) % table.cols.len();
                     let c = &table.cols[ci];
+                    // near misses of the category grammars (one character away
+                    // from a valid value); the first the reference rejects
+                    const NEAR: [&str; 20] = ["%%PATH", "%", "%1a", "1abc", "a b", "a-b", "{12345678-1234-1234-1234-123456789abc}", "{12345678-1234-1234-1234-123456789AB}", "1.2.3.4.5", "65536.1", "1.+2", "+1", "1,,2", "65536", "abcdefghi.txt", "a.b.c.toolong", "#1a", "Abc", "aBC", "2147483648"];
+                    let near = || -> Option<V> {
+                        let cat = c.category?;
+                        (0..NEAR.len()).map(|i| NEAR[(i + seed.int_sel.unsigned_abs() as usize) % NEAR.len()]).find(|s| crate::model::cat_ref(cat, s) == Some(false)).map(|s| V::Str(s.to_string()))
+                    };
                     let bad: Option<V> = match c.ty {
+                        Ty::Str(_) if c.category.is_some() && (seed.class / 8) % 2 == 1 && near().is_some() => near(),
                         Ty::I16 => Some(V::Int([32768, 65536, 70000, -32768, -40000, 65535][(seed.int_sel.unsigned_abs() % 6) as usize])),
                         Ty::I32 => Some(V::Int(i32::MIN)),
                         Ty::Str(w) if w > 0 => Some(V::Str("x".repeat(w + 1))),
@@ -1032,7 +1053,7 @@ impl Run {
 pub fn show_rows(rows: &[Row]) -> String {
     let show_v = |v: &V| -> String {
         match v {
-            V::Str(s) if s.len() > 40 => format!("<{}-byte string {:?}...>", s.len(), &s[..8]),
+            V::Str(s) if s.len() > 40 => format!("<{}-byte string {:?}...>", s.len(), s.chars().take(8).collect::<String>()),
             other => format!("{:?}", other),
         }
     };
